@@ -148,6 +148,14 @@ func init() {
 		}
 		return e.C.BVConv(e.C.mk(&Term{Op: "fp.to_ieee_bv", Sort: BV(32), Args: []*Term{t}}), 64, false), false
 	})
+	reg("SameF32", func(e *Exec, fv *FuncV, args []Value, cc *ssa.CallCommon) (Value, bool) {
+		a, b := args[0].(*Term), args[1].(*Term)
+		if a == b {
+			return e.C.True, false
+		}
+		c := e.C
+		return c.Or(c.FPCmp("fp.eq", a, b), c.And(c.FPUn("fp.isNaN", a), c.FPUn("fp.isNaN", b))), false
+	})
 	reg("SameBytes", func(e *Exec, fv *FuncV, args []Value, cc *ssa.CallCommon) (Value, bool) {
 		return e.C.Eq(e.bytesCodeOrNil(args[0]), e.bytesCodeOrNil(args[1])), false
 	})
